@@ -1,5 +1,6 @@
-From MV Require Import Lib.ExtractBase C04.Model.
+From MV Require Import Lib.ExtractBase Lib.AtomicTie C04.Model.
 From Coq Require Import ExtrOcamlBasic.
 Extraction Language OCaml.
 Extraction "c04_model" force_types linit lstep oinit ostep rinit rstep rspec_run
-  l_counter l_overlaps l_uncovered o_runs o_done o_early r_ref r_lin.
+  l_counter l_overlaps l_uncovered o_runs o_done o_early r_ref r_lin r_ovf rbody
+  aop_sem aop_run wraps.
